@@ -152,12 +152,14 @@ class World:
         self.guard = True
         self.guard_default = True
         self.grad_poisoned = False
+        self.aborted_backward = False
         self.exact = bool(self.cfg.get("exact", False))
         dts = self.cfg.get("dtypes", ["f8"])
         self.tol_dtype = np.float16 if "f2" in dts else (np.float32 if "f4" in dts else np.float64)
         self.need_discovery = any(getattr(o, "needs_ops", False) for o in self.obs)
         self.last_backward = None
         self.checkpoints = []
+        self.grad_read_errors = []
         self.failed_events = []  # id(ev) of statements that raised (expected or not)
         self.files = {}
         self._tmpdir = None
@@ -165,6 +167,15 @@ class World:
             o.attach(self)
 
     # ------------------------------------------------------------------ bookkeeping
+    def read_grad(self, t, who=None):
+        """t.grad, robust against the property itself raising (recorded, returned as None)"""
+        try:
+            return t.grad
+        except Exception as e:
+            self.grad_read_errors.append((self.nstep, who, type(e).__name__, str(e)[:160]))
+            self.count("unexp.grad_read." + type(e).__name__)
+            return None
+
     def count(self, k, n=1):
         self.stats[k] = self.stats.get(k, 0) + n
 
@@ -561,7 +572,7 @@ class World:
             self.a_orig[ha] = self.info[src].orig_w
             self.a_entered[ha] = self.info[src].entered
         elif what == "grad":
-            a = t.grad
+            a = self.read_grad(t, src)
             if a is None:
                 return self._skip("nograd")
             self.a_orig[ha] = True
@@ -998,7 +1009,7 @@ class World:
             "pre_member_ids": {k: i.ids for k, i in self.info.items() if i.ids is not None and not i.foreign and not i.stale},
         }
         for k, tt in self.T.items():
-            g = tt.grad
+            g = self.read_grad(tt, k)
             if g is None:
                 rec["pre_grads"][k] = None
             else:
@@ -1028,6 +1039,9 @@ class World:
             del t, seed
             if name == "InvalidBackprop":
                 self.probe("InvalidBackprop")
+            # an aborted backward pass leaves partially written gradients and an uncleared graph
+            # behind ("clear all computational graphs and restart"): later crashes are not judged
+            self.aborted_backward = True
             return Outcome(st, name, str(e)[:300], expected_fail=expect_fail, fault="natural")
         del t, seed
         if expect_fail:
@@ -1073,7 +1087,7 @@ class World:
     def _checkpoint(self, rec):
         cp = {}
         for k, t in self.T.items():
-            g = t.grad
+            g = self.read_grad(t, k)
             ga = None if g is None else np.asarray(g)
             cp[k] = (t.data.tobytes(), str(t.dtype), t.shape, None if ga is None else (ga.tobytes(), str(ga.dtype), ga.shape), bool(t.constant))
             del g
@@ -1085,6 +1099,7 @@ class World:
         tp = self.tape
         root = rec["nid"]
         rec["tainted"] = tp.tainted(root)
+        rec["layers"] = sorted({(tp.nodes[i].params or {}).get("layer", "?") for i in tp.upstream(root) if tp.nodes[i].opaque})
         cot, inf = tp.backward(root, rec["seed"])
         if self.cfg.get("fd_sample") and not inf["nondiff"] and not inf["opaque"] and not self.exact_only_ints():
             probs = tp.check_against_fd(root)
@@ -1139,6 +1154,60 @@ class World:
 
     def exact_only_ints(self):
         return False
+
+    def _nnet_call(self, layer, a, p):
+        from mygrad.nnet import activations as act, layers as lay, losses as los
+
+        if layer == "softmax":
+            return act.softmax(a[0], axis=p.get("axis", -1))
+        if layer == "logsoftmax":
+            return act.logsoftmax(a[0], axis=p.get("axis", -1))
+        if layer == "softmax_crossentropy":
+            return los.softmax_crossentropy(a[0], a[1])
+        if layer == "softmax_focal_loss":
+            return los.softmax_focal_loss(a[0], a[1], alpha=p.get("alpha", 1), gamma=p.get("gamma", 0))
+        if layer == "focal_loss":
+            return los.focal_loss(a[0], a[1], alpha=p.get("alpha", 1), gamma=p.get("gamma", 0))
+        if layer == "margin_ranking_loss":
+            return los.margin_ranking_loss(a[0], a[1], a[2], p.get("margin", 0.5))
+        if layer == "conv_nd":
+            return lay.conv_nd(a[0], a[1], stride=p.get("stride", 1), padding=p.get("padding", 0), dilation=p.get("dilation", 1))
+        if layer == "max_pool":
+            return lay.max_pool(a[0], tuple(p["pool"]), p.get("stride", 1))
+        if layer == "batchnorm":
+            return lay.batchnorm(a[0], gamma=a[1] if len(a) > 1 else None, beta=a[2] if len(a) > 2 else None, eps=1e-5)
+        if layer == "gru":
+            return lay.gru(*a, bp_lim=p.get("bp_lim"))
+        raise ValueError(layer)
+
+    def ev_nnet(self, ev):
+        h = ev["out"]
+        refs = ev["args"]
+        if h in self.T or not all(self.has(r) for r in refs):
+            return self._skip("ref")
+        p = ev.get("p", {})
+        try:
+            with mg.no_autodiff:
+                sv = self._nnet_call(ev["layer"], [np.array(self.shadow(r), copy=True) for r in refs], p)
+            sout = np.array(sv.data, copy=True)
+            del sv
+        except Exception:
+            return self._skip("shadow")
+        self._mark_entered(refs)
+        try:
+            t = self._nnet_call(ev["layer"], [self.real(r) for r in refs], p)
+        except Exception as e:
+            return Outcome("unexp", type(e).__name__, str(e)[:200])
+        self.T[h] = t
+        self.S[h] = sout
+        const = self.expected_const(refs, None, sout.dtype)
+        nid = self.tape.opaque(np.asarray(sout, dtype=np.float64), [self.nid_of(r) for r in refs], const)
+        self.tape.nodes[nid].params = {"layer": ev["layer"]}
+        i = self._new_tinfo(h, t, const, nid, foreign=True)
+        i.entered = bool(self.tracking and self.guard)
+        i.made_by = "nnet:" + ev["layer"]
+        self.h_update(np.asarray(t.data))
+        return Outcome("ok")
 
     def ev_terminal(self, ev):
         """L = sum_i c_i * T[h_i].sum() over the terms that exist (shrink-friendly terminal)"""
@@ -1234,7 +1303,7 @@ class World:
         """the caller reads .grad of some handles (the read schedule of C06); nothing else happens"""
         for h in ev.get("hs", []):
             if h in self.T:
-                g = self.T[h].grad
+                g = self.read_grad(self.T[h], h)
                 del g
         return Outcome("ok")
 
